@@ -22,7 +22,7 @@ VALUES = {"connect": 1.5, "read": 2.5, "write": 3.5, "pool": 4.5}
 VALUES2 = {"connect": 11.5, "read": 12.5, "write": 13.5, "pool": 14.5}
 OPTIONS = ("absent", "none", "zero", "value")
 KEYS = ("connect", "read", "write", "pool")
-SHAPES = ("get", "post3", "stream")
+SHAPES = ("get", "post3", "stream", "postbig")
 from ..topo import REFUSALS  # noqa: E402
 
 KIND_LIST = [k for k in KINDS if k not in ("direct-h2-fallback-h1", "forward-auth") and k not in REFUSALS]
@@ -46,6 +46,8 @@ def matrix(tier):
         for combo in itertools.product(OPTIONS, repeat=4):
             # request shapes rotate with the cell so that every (kind, combo) gets one and every shape meets every kind
             for shape in SHAPES:
+                if shape == "postbig" and sum(OPTIONS.index(o) * 4 ** i for i, o in enumerate(combo)) % 8 != 3 and list(combo) != ["value"] * 4:
+                    continue  # the big upload meets every kind with a thirty-second of the combinations (and always with four distinct values)
                 cases.append({"kind": kind, "combo": list(combo), "shape": shape})
     return cases
 
@@ -56,6 +58,9 @@ def req_spec(scheme, shape, tok, timeouts):
         spec.update(method="GET", api="request")
     elif shape == "post3":
         spec.update(method="POST", api="request", content={"chunks": [b"aa", b"bbb", b"c"]})
+    elif shape == "postbig":
+        # larger than the HTTP/2 flow-control window: the upload has to wait for WINDOW_UPDATE frames (reads in the middle of the upload)
+        spec.update(method="POST", api="request", content={"chunks": [b"x" * 70000, b"y" * 70000]})
     else:
         spec.update(method="GET", api="stream", read="all")
     return spec
@@ -69,7 +74,7 @@ def run(case, sync):
     # second request: same shape of dictionary, rotated option per key, other values
     combo2 = case["combo"][1:] + case["combo"][:1]
     t2 = tdict(combo2, VALUES2)
-    specs = [req_spec(scheme, case["shape"], "s0", t1), req_spec(scheme, "get" if case["shape"] != "get" else "post3", "s1", t2)]
+    specs = [req_spec(scheme, case["shape"], "s0", t1), req_spec(scheme, "get" if case["shape"] not in ("get",) else "post3", "s1", t2)]
     outs = []
     if sync:
         for i, s in enumerate(specs):
@@ -172,7 +177,7 @@ def execute(case) -> Outcome:
 RULE = ("arguments layer: connection kind (direct plain/TLS, HTTP/2 via ALPN and prior knowledge, forward proxy (http/https proxy), "
         "CONNECT tunnel (h1/h2/https proxy/with auth), SOCKS5 with/without auth/TLS/h2) x every combination of connect/read/write/pool "
         "in {absent, None, 0, distinct positive value} (256) x request shape {GET, POST with a 3-chunk iterator body, streamed "
-        "response}; each cell issues two sequential requests with different timeout dictionaries (the second usually on the reused "
+        "response, POST of 140 kB (beyond the HTTP/2 window; on a thirty-second of the combinations)}; each cell issues two sequential requests with different timeout dictionaries (the second usually on the reused "
         "connection), sync and async, and checks the timeout argument of every connect/start_tls/read/write op. Both tiers enumerate the full "
         "matrix. Non-trivial: all four values distinct and "
         "non-None, or a reused connection with a changed dictionary; distinct = distinct cell.")
